@@ -16,6 +16,18 @@ from corankco.algorithms.exact.exactalgorithmcplexforpaperoptim1 import ExactAlg
 from corankco.algorithms.exact.exactalgorithmpulp import ExactAlgorithmPulp
 
 
+def _with_elements_of(elements: Set[Element], buckets) -> List[Set[Element]]:
+    """
+    The consensus of a sub-problem, expressed with the elements of the input dataset. A sub-problem is a new Dataset
+    which re-analyses the type of its elements (names that all look like integers become integers): its consensus must
+    be translated back so that the elements of the final consensus are those of the input dataset.
+    """
+    by_name = {str(element): element for element in elements}
+    by_int = {int(str(element)): element for element in elements if element.can_be_int()}
+    return [{by_name[str(elem)] if str(elem) in by_name else by_int[int(str(elem))] for elem in bucket}
+            for bucket in buckets]
+
+
 def _exact_algorithm_for_sub_problems() -> RankAggAlgorithm:
     """
     The exact algorithm used on the sub-problems: the CPLEX model when CPLEX is installed, the free solver otherwise.
@@ -122,12 +134,12 @@ class ParCons(RankAggAlgorithm, PairwiseBasedAlgorithm):
                 if len(scc_i) > self._bound_for_exact:
                     cons_ext = self._auxiliary_alg.compute_consensus_rankings(
                         sub_problem, scoring_scheme, True).consensus_rankings[0]
-                    res.extend(cons_ext)
+                    res.extend(_with_elements_of(set_current_elements, cons_ext))
                     optimal = False
                 else:
                     cons_ext = _exact_algorithm_for_sub_problems().compute_consensus_rankings(
                         sub_problem, scoring_scheme, True).consensus_rankings[0]
-                    res.extend(cons_ext)
+                    res.extend(_with_elements_of(set_current_elements, cons_ext))
 
         hash_information = {
             ConsensusFeature.ASSOCIATED_ALGORITHM: self.get_full_name(),
